@@ -1,11 +1,14 @@
 ---- MODULE DocumentGen ----
 (* GEN for documents: for every element-content type, one shortest valid child word through every follow edge *)
-(* of its automaton (EdgeCover) plus the shortest valid word.  The document builder (harness/schemadoc.py,     *)
+(* of its automaton (EdgeCover), every cycle taken twice (Pump), every valid word up to a small length for small *)
+(* alphabets, plus the shortest valid word.  The document builder (harness/schemadoc.py,     *)
 (* schema tables only) turns each word into a document; the parser must read every one of them (C09).          *)
 EXTENDS SchemaDerived, Report
-CONSTANT Types
+CONSTANTS Types, SmallAlphabet, SmallLen   \* types with at most SmallAlphabet child names also get every valid word up to SmallLen
 VARIABLES t, w
-Init == t \in Types /\ w \in EdgeCoverWords(CM[t]) \cup (IF CM[t].nullable THEN {<<>>} ELSE {})
+WordsFor(ty) == EdgeCoverWords(CM[ty]) \cup {x \in PumpWords(CM[ty]) : Len(x) <= 8} \cup (IF CM[ty].nullable THEN {<<>>} ELSE {})
+                 \cup (IF Len(Alphabet[ty]) <= SmallAlphabet THEN WordsUpTo(CM[ty], SmallLen) ELSE {})
+Init == t \in Types /\ w \in WordsFor(t)
 Next == UNCHANGED <<t, w>>
 Spec == Init /\ [][Next]_<<t, w>>
 Emit == Report([type |-> t, word |-> w])
